@@ -374,8 +374,23 @@ func TestRegressBigTrees(t *testing.T) {
 		for i := 0; i < n; i++ {
 			spec.Files = append(spec.Files, hx.FileSpec{Path: fmt.Sprintf("d%d/f%04d", i%7, i), Content: hx.ContentSpec{Leaf: 1024, Size: i % 5, Seed: uint64(i % 50)}})
 		}
+		// names that sort differently by byte order and by directory walk ("d1.txt" < "d1/f0001")
+		for j := 0; j < 7; j++ {
+			spec.Files = append(spec.Files, hx.FileSpec{Path: fmt.Sprintf("d%d.txt", j), Content: hx.ContentSpec{Leaf: 1024, Size: 3 + j, Seed: uint64(900 + j)}})
+		}
 		c := caseT{Tree: spec, EPF: 1000, UpConc: 20, DownConc: 10, Mode: "tree", Download: "publish"}
 		check(t, c, 300*time.Second)
+		// single-file downloads across the index-file boundary (production entry point, default index size)
+		for _, uc := range []int{1, 20} {
+			picks := []string{spec.Files[0].Path, spec.Files[n-1].Path, spec.Files[n/2].Path, "d1.txt", "d6.txt", fmt.Sprintf("d%d/f%04d", 999%7, 999), "no/such/file"}
+			for _, pick := range picks {
+				cc := caseT{Tree: spec, EPF: 1000, UpConc: uc, DownConc: 3, Mode: "tree", Download: "file", SelectFile: pick}
+				check(t, cc, 300*time.Second)
+			}
+			if !hx.Thorough() {
+				break
+			}
+		}
 		sig, _ := c.classes()
 		stats.Case(fmt.Sprintf("big n=%d %s", n, sig), true, func() interface{} { return fmt.Sprintf("big tree of %d tiny files, epf=1000", n) })
 	}
